@@ -210,6 +210,20 @@ func (b *readBuffer) string(n int) string {
 	return string(str)
 }
 
+// validateWireLen ensures a variable length field, or an argument count, fits the
+// length field that carries it on the wire: 255 for one octet, 65535 for two.
+func validateWireLen(name string, n, max int) error {
+	if n > max {
+		return fmt.Errorf("%s is too large for its length field; max allowed [%v] found [%v]", name, max, n)
+	}
+	return nil
+}
+
+const (
+	maxUint8Len  = 0xff
+	maxUint16Len = 0xffff
+)
+
 // appendUint16 will append an int to a []byte as a uint16 but shifting bits
 func appendUint16(b []byte, i int) []byte {
 	return append(b, byte(i>>8), byte(i))
